@@ -5,6 +5,7 @@
 (*   nominal   the step record of the run without a sweep (range <<0, 0, step>>)                                 *)
 (*   runs      sequence of [range |-> <<start, stop, step>> (micro-dB), powers |-> reported powers,               *)
 (*                          steps |-> sequence of step records]                                                  *)
+(*                          outside0/outside1 |-> digest of every setting but the path's amplifiers, before/after] *)
 (*   step record: [dp, amps |-> sequence of [gain, dp, out] along the path, gsnr]   (all micro-dB)               *)
 (* Monitor-shaped: every case is judged by every clause; the verdict names the failing clauses.                  *)
 EXTENDS GnpyBase, TLC, Json, IOUtils
@@ -49,6 +50,8 @@ Clauses(c) ==
      \cup (IF \A r \in Single : Len(St(r)) = 1 => SameSettings(St(r)[1], c.nominal)
            THEN {} ELSE {"SingleStepKeepsTheDesign"})
      \cup (IF c.sim0 = c.sim1 THEN {} ELSE {"SimParamsUntouched"})
+     \* a sweep redesigns the amplifiers of the path and nothing else (other directions, other degrees of a crossed ROADM)
+     \cup (IF \A r \in R : c.runs[r].outside0 = c.runs[r].outside1 THEN {} ELSE {"SweepTouchesOnlyThePathAmplifiers"})
 
 Init == tid \in 1..Len(T) /\ done = FALSE /\ viol = {}
 Next == ~done /\ done' = TRUE /\ tid' = tid /\ viol' = Clauses(T[tid])
